@@ -874,6 +874,32 @@ u_stubs! { fn c05_u_set_config() {
     }
 } }
 
+// @harness props=C04,C01,C03,C05 tier=quick bound="new_reply_header::<T> for the three reply body types (8, 12, 24 bytes): all header words of the request, ALL usize payload sizes: a reply header is produced exactly when body + payload fit one message (<= 4096 bytes), with size = body + payload, REPLY set, NEED_REPLY clear, version 1, the request's code" stubs="close/OwnedFd::drop, handle_alloc_error"
+u_stubs! { fn c04_u_reply_header() {
+    let h = mk_handler(kani::any(), kani::any(), kani::any());
+    let (hdr, code, _flags, _size) = any_hdr();
+    kani::assume(code >= 1 && code <= 43 && served(code));
+    let payload: usize = kani::any();
+    let which: u8 = kani::any();
+    kani::assume(which < 3);
+    let (body, r) = match which {
+        0 => (8usize, h.new_reply_header::<VhostUserU64>(&hdr, payload)),
+        1 => (12usize, h.new_reply_header::<VhostUserConfig>(&hdr, payload)),
+        _ => (24usize, h.new_reply_header::<VhostUserInflight>(&hdr, payload)),
+    };
+    let fits = payload <= 4096 && body + payload <= 4096;
+    kani::cover!(r.is_ok() && payload == 4096 - 12);
+    assert!(r.is_ok() == fits, "C04: a reply is produced exactly when body + payload fit one message (at most 4096 bytes)");
+    if let Ok(rh) = &r {
+        // SAFETY: the header is 12 bytes of plain old data
+        let b: [u8; 12] = unsafe { std::mem::transmute_copy(rh) };
+        assert!(spec::rd32(&b, 0) == code, "C04: reply carries the request's code");
+        assert!(spec::rd32(&b, 4) == 0x5, "C04: reply flags = version 1 | REPLY");
+        assert!(spec::rd32(&b, 8) as usize == body + payload, "C04: reply size = body + payload");
+    }
+    std::mem::forget(r);
+} }
+
 // ==== generated by tools/gen_e_be.py ====
 // @harness props=C01,C03,C04,C09 tier=quick reach=off timeout=400 bound="request 1 (GET_FEATURES), header flags 0x9 (version 1, NEED_REPLY), declared size = body size; body bytes, 0..=2 attached descriptors, three 64-bit negotiation words and handler outcome symbolic; one request" stubs="vmm-sys-util raw_recvmsg/raw_sendmsg (ghost stream socket), libc::close + OwnedFd::drop (ghost descriptor table), handle_alloc_error (assume false)"
 e_be!(e_be_get_features_nr, 1, 0x9, 0, 0);
